@@ -81,6 +81,7 @@ CONFIG["C11"] = dict(
                "(p256_sign_verify, k256_sign_verify): the model's curve arithmetic is Mathlib's group law of the curve, n is prime and annihilates G (kernel-checked), u1 + u2 d = k in ZMod n; non-vacuity example on secp256k1. "
                "EXACTNESS (p256_verify_iff_signed, k256_verify_iff_signed, Proofs/EcdsaExact): under the public key d*G the model accepts a string on a hash IFF it is the output of signWith for some nonce 0 < k < n "
                "(the nonce is (e + r d)/s; it is non-zero because verification rejects the point at infinity) - so the accepted set is exactly the set of genuine signatures of the key holder, no more. "
+               "p256_twin_accepted / k256_twin_accepted (Proofs/EcdsaTwin): the twin (r, n - s) of an accepted string is accepted - it is the signature with the nonce n - k, whose ephemeral point is the negative (same abscissa). "
                "That crypto/ecdsa and btcec compute this equation is the correspondence part.",
     level_note="Lean kernel; the verification equation itself is the model (Model.Ecdsa.verifyHash) compared with crypto/ecdsa and btcec",
     assumptions=["hash bytes are produced by the real hashers (tied separately by C13)"],
